@@ -349,4 +349,35 @@ theorem Paired.preEnv {T : Heap} {w : W} {r : R Env} {ev : Env} {ei : Nat}
   have := slc_cons T.envs c.e c'.e ev ho (by have := k1.2.2; simpa using this)
   simp [this]
 
+theorem W.seq_assoc (a b c : W) : W.seq (W.seq a b) c = W.seq a (W.seq b c) := by
+  funext x
+  simp only [W.seq]
+  cases a x with
+  | none => rfl
+  | some r1 =>
+    obtain ⟨b1, c1⟩ := r1
+    simp only []
+    cases b c1 with
+    | none => rfl
+    | some r2 =>
+      obtain ⟨b2, c2⟩ := r2
+      simp only []
+      cases c c2 with
+      | none => rfl
+      | some r3 => obtain ⟨b3, c3⟩ := r3; simp
+
+theorem W.markObj_lead_comm (id lead : Nat) (w : W) :
+    W.seq (W.markObj id) (W.lead lead w) = W.lead lead (W.seq (W.markObj id) w) := by
+  funext c
+  simp only [W.seq, W.lead, W.markObj]
+  by_cases e : id = c.n
+  · simp only [e, if_true]
+    cases w { c with n := c.n + 1 } with
+    | none => rfl
+    | some r => obtain ⟨b, c2⟩ := r; simp
+  · simp [e]
+
+theorem Paired.value_eq {α : Type} {T : Heap} {w : W} {r : R α} {a b : α} (h : Paired T w r a) (e : a = b) : Paired T w r b := by
+  subst e; exact h
+
 end JanetModel.Marsh
